@@ -96,6 +96,8 @@ def generate(tier, seed, work, stats):
             for sp, yp, perm in ps:
                 cases.append(dict(kind=kind, calls=calls, spool=sp, ypool=yp, perm=perm, family="FAGen"))
     cases += random_cases(2000 if tier == "quick" else 20000, seed)
+    # P3: the calls the repository's own tests make, re-judged by the trace specification
+    cases += [c for c in core.record_tests(["/repo/pyformlang"], work, {"accepts", "to_deterministic", "remove_epsilon_transitions", "minimize", "copy"}, stats) if "A" in c["recorded"][0]]
     from harness.drivers import c02
     for c in c02.random_dfas(2500 if tier == "quick" else 30000, seed + 11):     # partition refinement needs >= 5 states
         cases.append(dict(kind="dfa", calls=c["callsA"], spool="int5", ypool="ab", perm=None, family="random-dfa"))
